@@ -32,7 +32,7 @@ PROBES = ['unknown-object', 'unknown-method', 'invalid-args', 'interface-omitted
           'no-reply-dispatched', 'deferred-fired-out-of-order', 'deferred-fired-after-loss',
           'same-member-two-interfaces', 'dbusCaller-requested', 'inherited-interface-called', 'interface-bound-across-classes',
           'unencodable-return', 'invalid-error-name', 'peer-ping', 'several-calls-in-flight',
-          'nested-exception-class']
+          'nested-exception-class', 'deferred-already-fired']
 COMPONENTS = {
     'real': ['txdbus.objects.DBusObjectHandler.handleMethodCallMessage / DBusObject.executeMethod',
              'txdbus.client.DBusClientConnection', 'txdbus.message / marshal', 'twisted Deferred'],
@@ -91,7 +91,7 @@ def scenario(ctx):
     def hook(obj, mspec, args, caller):
         rec = {'obj': obj, 'm': mspec, 'args': args, 'caller': caller}
         invocations.append(rec)
-        kind = ds.weighted([5, 1, 2, 2, 1, 1, 3])
+        kind = ds.weighted([5, 1, 2, 2, 1, 1, 3, 1])
         so = mspec.sig_out
         n = objgen.nargs(so)
 
@@ -118,7 +118,7 @@ def scenario(ctx):
             if kind == 2 and ds.flag(0.4):
                 cls = ds.pick([Outer.NestedError, LocalError])
                 sim.probe('nested-exception-class')
-            text = ds.pick(['kaboom', '', 'x: y'])
+            text = ds.pick(['kaboom', '', 'x: y', 'za\u017c\u00f3\u0142\u0107 \u20ac'])
             rec['outcome'] = 'raise'
             rec['exc'] = (cls, text)
             if kind == 4:
@@ -136,6 +136,11 @@ def scenario(ctx):
                 return good_value()
             rec['outcome'] = 'unencodable'
             return None
+        if kind == 7:
+            # a Deferred that has already fired when it is returned
+            rec['outcome'] = 'value'
+            sim.probe('deferred-already-fired')
+            return defer.succeed(good_value())
         d = defer.Deferred()
         rec['outcome'] = 'deferred'
         rec['d'] = d
